@@ -112,7 +112,7 @@ def handleC20 : Handler := fun st toks =>
       | none => some "ERR missingTable"
     | none => some "ERR parse"
   | ["readbench", t] =>
-    match readBenchmark (strOfTok t) with
+    match readBenchmarkU (strOfTok t) with
     | none => some "ERR reject"
     | some (cols, rows) =>
       some ("OK " ++ " ".intercalate (toString cols.length :: cols.map escTok) ++ " " ++
